@@ -239,7 +239,22 @@ fn cast_type_of(name: &str) -> Option<&'static str> {
 
 impl IntoSqlBuilder for Member {
     fn into_sql_builder(&self) -> Result<Box<dyn SqlBuilder>, ToSqlError> {
-        let primary_builder = self.primary.into_sql_builder()?;
+        let mut primary_builder = self.primary.into_sql_builder()?;
+
+        // An empty map literal is emitted as the bare cast `'{}'::json`. Directly followed by
+        // `[..]` or `(..)` SQL reads those as part of the type name (`json[0]`), so group it.
+        let bare_cast_head =
+            matches!(self.primary.node(), Primary::ObjectInit(o) if o.node().inits.is_empty());
+        if bare_cast_head
+            && matches!(
+                self.member.first().map(|m| m.node()),
+                Some(MemberPrime::Call { .. }) | Some(MemberPrime::ArrayAccess { .. })
+            )
+        {
+            primary_builder = Box::new(ParensBuilder {
+                inner: primary_builder,
+            });
+        }
 
         // Check if this is a single function call
         if self.member.len() == 1 {
